@@ -1996,6 +1996,11 @@ func (r *Raft) stepdown() {
 func (r *Raft) tryApplyReadOnlyOperations(round uint64) {
 	r.operationManager.markAsVerifiedBefore(round)
 	r.operationManager.leaderLease.renew()
+
+	// A quorum has just recognized this node as the leader. That counts as contact with
+	// the leader: vote requests are ignored for an election timeout from now on, even if
+	// the lease is shorter than the interval between two rounds of heartbeats.
+	r.lastContact = time.Now()
 	r.operationManager.shouldVerifyQuorum = true
 	r.readOnlyCond.Broadcast()
 }
